@@ -2,9 +2,14 @@
 REGISTRY = {
     'C01': ['base_core'],
     'C06': ['base_core'],
+    'C05': ['thread_pool', 'strand'],
+    'C07': ['strand'],
+    'C08': ['thread_pool'],
     'C19': ['atomic'],
 }
 LEVEL = {'C04': 'other'}
+# properties decided only by obligations explicitly tagged with them (the order discipline is asserted at every atomic operation)
+TAG_ONLY = {'C04'}
 
 TECHNIQUE = 'CBMC code contracts (goto-instrument --dfcc --enforce-contract / --replace-call-with-contract / --apply-loop-contracts) on function bodies extracted mechanically from /repo on every run'
 
@@ -27,6 +32,36 @@ CLAIMS = {
         'note': 'SC atomics; the callback list is a ghost pool (node k = pool[k], symbolic length up to 2^40) accessed through a live-node '
                 'accessor; reference-count thresholds of ResultCore::Impl are in unit result_core when present.',
         'design': 'DESIGN.md 6 C06, 5.B, 5.I, A.2',
+    },
+    'C05': {
+        'text': 'Executor contracts proved per implementation: Inline<Stopped>::Submit (Call xor Drop, Drop iff the stopped instance), '
+                'ManualExecutor::Submit/Drain (loop contract: every queued job Called exactly once), Strand (Submit/Call/Drop, see C07), '
+                'FairThreadPool (Submit/Loop/Stop/SoftStop/HardStop under a monitor invariant: accepted iff not stopped at the deciding step, '
+                'else Dropped exactly once outside the lock), against one Call-xor-Drop interface contract with a ghost per-job fate.',
+        'note': 'The pipeline side of C05 (Core::Impl submits exactly once to the stored executor, ThenInline never submits, executor inheritance, '
+                'OnAwaiter) is in unit core when registered; "runs inside e" for third-party executors is the interface contract, trusted.',
+        'design': 'DESIGN.md 6 C05, 5.A-C',
+    },
+    'C07': {
+        'text': 'Rely/guarantee contracts on the strand word (Mark / nullptr / list) with a single ghost batch token: Submit (push by weak CAS, '
+                'loop contract; schedules the strand iff it replaced Mark, with one IncRef), Call (takes the inbox with one exchange, in-place '
+                'reversal and run loop closed by loop invariants over a ghost pool of symbolic length with reversal frontier, every taken job '
+                'Called exactly once oldest-first, released xor resubmitted), Drop, Mark, Alive; lemma: invariant stable, non-empty inbox always '
+                'has an outstanding batch, the strand is scheduled only when no batch is outstanding.',
+        'note': 'SC atomics (orders: C04). Order through the in-place reversal is additionally checked on real memory, bounded (N<=6 quick, 10 '
+                'thorough, labelled bounded, not counted as discharged). "Without blocking a thread of the underlying executor": only that '
+                'Submit/Call/Drop contain no blocking primitive. Replay: every sequential schedule of submit/run/stop on the real Strand (ASan).',
+        'design': 'DESIGN.md 6 C07, 5.B, 5.I, A.3',
+    },
+    'C08': {
+        'text': 'Monitor-invariant proof of FairThreadPool (assume on lock, assert on unlock / wait; RAII locks expanded mechanically): '
+                'Submit, Loop (nested loops closed by invariants), Stop, Stop(lock&&), SoftStop, HardStop, Alive, WasStop/WantStop/NoJobs with '
+                'ghost accounting queued/running vs the packed counter; every popped job Called exactly once outside the lock; a worker returns '
+                'only after seeing stopped and an empty queue and blocks only while not stopped and nothing is queued; the intrusive List '
+                'functions are proved against an abstract sequence view (ghost pool, symbolic length).',
+        'note': 'std::mutex/condition_variable/thread trusted; Wait()=join not under contract; single-worker FIFO is the List FIFO, checked '
+                'bounded on real memory (N<=6/10). Assumes fewer than 2^61 jobs counted at once.',
+        'design': 'DESIGN.md 6 C08, 5.C, A.6',
     },
     'C19': {
         'text': 'Every member function body of the FIBER atomic re-implementation and of the fault-injecting wrapper (both cv overloads) is '
